@@ -17,7 +17,7 @@ _P = PROPS["C04"]
 _P["harnesses"] = [dict(name="C04", procs_quick=2, procs_thorough=16,
                         extra=["-I" + _os.path.join(_verif, "harness", "C10_tools"), "-DGV_TOOLS_DIGEST=0x" + _tool_digest()])]
 _P["gens"] = ["gen_math", "gen_utm"]
-_P["rule"] += ("; deepening round: central meridians 6·zone − 183 (+360k) and both poles (documented x = 500 km / 2000 km, γ = 0, k = 0.9996 / 0.994); "
+_P["rule"] += ("; deepening round: requested zones whose central meridian is 45 / 60 / 90 / 120 / 180° away (either side, ± 1 ulp) at latitudes ±0, ±1e-9, 1e-300, ±45, 80, 89, ±90 (stratum fwd-far-zone); central meridians 6·zone − 183 (+360k) and both poles (documented x = 500 km / 2000 km, γ = 0, k = 0.9996 / 0.994); "
                "utm_consts (UTMShift, EquatorialRadius, Flattening of UTMUPS / MGRS / the two projections); GeoCoords objects built from (lat, lon[, zone]) "
                "(strata geocoords-latlon: the lat/lon strata above, ±0, ±1e-300, zone request STANDARD / UTM / neighbour) and from (zone, northp, x, y) "
                "(geocoords-utmups: inside the ranges, the equator under both labels, northings continued across the equator up to 9000 / 9500 km — "
@@ -56,8 +56,9 @@ _P["level_text"] += (
     "alternate coordinates are those of UTMUPS::Forward at the same (lat, lon) with setzone = the alternate zone, for every kernel under which the object's own coordinates are Forward's), "
     "setAltZone_zone, forward_explicit_zone (Forward with a request that resolves to z is Forward with z requested: discharges that hypothesis for objects built from (lat, lon)), relabel_spec "
     "(the representation overloads with a hemisphere argument). The models fixHemisphere / resetUTM / setAltZone are executed against the implementation in op gc_alt (bit-exact, incl. the second "
-    "request of a history). FINDING of this round: F83 (SetAltZone dropped Forward's hemisphere: on the equator with the southern label the alternate northing was 10 000 km off; repaired 46b5aee, "
-    "model and theorems follow). NOT PROVED: that the object's coordinates after GeoCoords(zone, northp, x, y) are Forward's (closure of the projections: C06/C11; checked to 40 nm); the text of the "
+    "request of a history). FINDINGS of this round: F83 (SetAltZone dropped Forward's hemisphere: on the equator with the southern label the alternate northing was 10 000 km off; repaired 46b5aee, "
+    "model and theorems follow) and F94 (Forward returned NaN coordinates, without an exception, at latitude 0 exactly 90° west of a requested zone's central meridian: its 60° guard was one-sided; repaired f1d86bf, "
+    "the model's test is two-sided; oracle forward-finite and stratum fwd-far-zone keep the class under watch). NOT PROVED: that the object's coordinates after GeoCoords(zone, northp, x, y) are Forward's (closure of the projections: C06/C11; checked to 40 nm); the text of the "
     "representations (C10); GeoConvert's option parsing (values checked per sampled command line only). Observation (not an alarm): UTMUPS::Forward also refuses points more than 60° from the central "
     "meridian / 20° from the pole with its own message, which the header does not mention and which is not implied by the ranges near a pole; the documented-range oracle leaves these out.")
 _P["level_note"] += ("; harness/C04_doc.hpp: the numbers of UTMUPS.hpp / MGRS.hpp / the EPSG registry written out by hand (trusted as a transcription of the documentation); "
